@@ -233,6 +233,7 @@ inductive Line
 def iniFiles : Nat → Option (List Line)
   | 1 => some [.hdr 0, .kv 0, .kv 1]
   | 2 => some [.other, .hdr 0, .kv 0, .kv 1, .other, .hdr 1, .hdr 2, .kv 2, .kv 3, .other, .kv 5]
+  | 3 => some [.kv 6, .other, .kv 7, .kv 4, .hdr 0, .kv 0, .kv 1]      -- keys before the first section: read, then ignored
   | _ => none
 
 def iniValText (j : Nat) : String :=
